@@ -36,6 +36,8 @@ func newWorld() (*world, error) {
 		return nil, err
 	}
 	w.as = as
+	// a revoke request without a token (sessions that have no refresh token): what Okta answers
+	as.IdP.Set("revoke", "", sut.Answer{Status: 400, Body: `{"error":"invalid_request","error_description":"The 'token' parameter is required."}`})
 	for i := 0; i < 2; i++ {
 		ps, err := sut.NewProxyStack(sut.ProxyOpts{
 			ProviderURL: "http://" + as.Host, InternalURL: "http://" + as.Addr,
@@ -255,9 +257,12 @@ func scopeOf(rs *sut.Resp, name string) string {
 // authorize (the user's consent is emulated: the harness calls the authenticator's callback with a
 // code the fake IdP will redeem) -> /sign_in 302 with an authorization code -> proxy callback ->
 // backend. Any deviation is a harness precondition failure (error), never a verdict.
-func (b *browser) login(tag string) (*identity, error) {
+func (b *browser) login(tag string, withRefreshToken bool) (*identity, error) {
 	as := b.w.as
 	id := &identity{Tag: tag, Email: "u-" + tag + "@corp.test", AT: "at-" + tag, RT: "rt-" + tag, Groups: []string{"eng", "other"}}
+	if !withRefreshToken {
+		id.RT = "" // the IdP granted no offline access
+	}
 	code := "idpcode-" + tag
 	as.IdP.Set("token", code, sut.TokenOK(id.AT, id.RT, int64(sut.TokenTTL.Seconds())))
 	as.IdP.Set("userinfo", id.AT, sut.UserinfoOK(id.Email, true, id.Groups))
